@@ -80,7 +80,7 @@ class Outcome:
 
 def scan_trusted(text):
     hits = []
-    pats = [(r'assume_specification[^\[]*\[([^\]]*)\]', 'assume_specification'), (r'#\[verifier::external_body\]\s*(?:pub\s+)?(?:broadcast\s+)?(?:proof\s+|spec\s+|exec\s+)?fn\s+(\w+)', 'external_body'),
+    pats = [(r'assume_specification(?:<[^\[]*>)?\s*\[(.+?)\]\s*\(', 'assume_specification'), (r'#\[verifier::external_body\]\s*(?:pub\s+)?(?:broadcast\s+)?(?:proof\s+|spec\s+|exec\s+)?fn\s+(\w+)', 'external_body'),
             (r'\buninterp\s+spec\s+fn\s+(\w+)', 'uninterp'), (r'\bassume\s*\(([^;]*)\)\s*;', 'assume'), (r'\badmit\s*\(\s*\)', 'admit'),
             (r'#\[verifier::external_type_specification\][^;{]*?struct\s+(\w+)', 'external_type_specification'),
             (r'#\[verifier::external\]\s*(?:pub\s+)?fn\s+(\w+)', 'external'),
